@@ -235,6 +235,9 @@ def run(ctx: core.Ctx) -> None:
     core.model_check(ctx, "MatcherSession", defines={"KeyedByAttrs": "TRUE", "MaxQ": "4" if q else "5"}, label="MatcherSession-contract")
     core.model_check(ctx, "MatcherSession", defines={"KeyedByAttrs": "FALSE", "MaxQ": "4"}, label="MatcherSession-cache-keyed-by-object-only",
                      expect_violation=True)
+    # the same contract for ANY number of earlier queries: inductive invariant discharged by Apalache
+    core.apalache_inductive(ctx, "MC_MatcherSessionApa", label="MatcherSession-attr-keyed-cache-inductive-invariant")
+    core.apalache_inductive(ctx, "MC_MatcherSessionApaObjKey", label="MatcherSession-object-keyed-cache-not-inductive", expect_step_failure=True)
     base = {"NLab": "3", "MaxHc": "1", "MaxOrd": "2", "CanonOnly": "TRUE", "MinN": "1"}
     g2 = core.tlc_generate(ctx, "GraphGen", dict(base, MaxN="2"), label="graphs<=2")
     g3 = core.tlc_generate(ctx, "GraphGen", dict(base, MaxN="3", NLab="2", MinN="3"), label="graphs=3")
